@@ -113,6 +113,9 @@ func Generate(prop string, r *sim.Rand, tier string) *sim.Plan {
 		case "commit":
 			s.K = r.Intn(4)
 			s.Mode = []string{"full", "full", "full", "full", "dup", "partial", "foreign", "peerblocks"}[r.Intn(8)]
+			if s.Mode == "foreign" && cfg.Foreign && s.K%2 == 1 {
+				s.Mode = "gapblock"
+			}
 			if s.Mode == "foreign" && !cfg.Foreign {
 				s.Mode = "full"
 			}
@@ -335,6 +338,7 @@ func (r *runner) invariants() {
 	}
 	// C19: reporting
 	readyUnbatched := false
+	readyUnbatchedClean := false // ... of an account whose bookkeeping no commit of unseen transactions has touched
 	for a := range m.ledgerNonce {
 		exp := m.nextBatch[a]
 		if m.ledgerNonce[a] > exp {
@@ -350,6 +354,9 @@ func (r *runner) invariants() {
 			}
 			if ok2 {
 				readyUnbatched = true
+				if !m.foreignHit[a] {
+					readyUnbatchedClean = true
+				}
 			}
 		}
 		got := r.pool.GetPendingNonceByAccount(accts[a].String())
@@ -395,11 +402,11 @@ func (r *runner) invariants() {
 	if readyUnbatched {
 		r.res.Count("probe_ready_unbatched_exists")
 		if !r.pool.HasPendingRequest() {
+			// the known stale-nonce defect makes the pool park (and not count) the transactions of the very account whose
+			// block it did not see in full; it explains nothing about a ready transaction of any other account
 			anyForeign := ""
-			for _, f := range m.foreignHit {
-				if f {
-					anyForeign = "after-commit-of-unseen-tx"
-				}
+			if !readyUnbatchedClean {
+				anyForeign = "after-commit-of-unseen-tx"
 			}
 			r.vio("C19", "no-pending-work-reported", anyForeign, "a ready, not yet batched transaction exists but HasPendingRequest() is false")
 		}
@@ -589,6 +596,41 @@ func execInBubble(prop string, p *sim.Plan, res *sim.Result) {
 				m.committedH++
 				res.Count("fault_commit_of_unseen_txs")
 				res.Log.Logf("%d commit foreign block A%d x%d", i, a, cnt)
+				r.pool.CommitTransactions(&mempool.ChainState{Height: m.committedH, TxHashList: hashes})
+				synctest.Wait()
+				r.afterCommitCleanup()
+				break
+			}
+			if mode == "gapblock" {
+				// this replica as a follower that missed a broadcast: it holds (A, n+1…) parked because (A, n) never reached
+				// it; another leader's block carries n (unseen here) and the parked ones
+				a := s.K % cfg.Accounts
+				n0 := m.ledgerNonce[a]
+				if _, have := m.present[a][n0]; have {
+					continue
+				}
+				var parked []*mtx
+				for n := n0 + 1; len(parked) < 1+s.K%2; n++ {
+					mt := m.present[a][n]
+					if mt == nil || mt.batched || mt.status != "held" {
+						break
+					}
+					parked = append(parked, mt)
+				}
+				if len(parked) == 0 {
+					continue
+				}
+				missing := mkTx(a, n0, 2000+i, int64(i))
+				hashes := []*types.Hash{missing.GetHash()}
+				m.ledgerNonce[a] = n0 + 1
+				m.foreignHit[a] = true
+				for _, mt := range parked {
+					hashes = append(hashes, mt.tx.GetHash())
+					r.commitModelTx(mt)
+				}
+				m.committedH++
+				res.Count("fault_commit_of_block_with_unseen_and_parked_txs")
+				res.Log.Logf("%d commit gap block A%d n=%d (unseen) + %d parked", i, a, n0, len(parked))
 				r.pool.CommitTransactions(&mempool.ChainState{Height: m.committedH, TxHashList: hashes})
 				synctest.Wait()
 				r.afterCommitCleanup()
